@@ -3,7 +3,7 @@ import json
 import common
 import impl
 
-TOP = ['theories/Props/C11.v', 'theories/Tie/TieTables.v']
+TOP = ['theories/Props/C11.v', 'theories/Props/C11_iter.v', 'theories/Tie/TieTables.v']
 
 RULE = ('all 44 symbol sizes, a real symbol per size (random content/level/mask from the seed), '
         'matrix_iter_verbose compared cell by cell with the extracted ISO classifier for several (scale, border); '
@@ -71,6 +71,84 @@ def run(ctx):
                     kf_queries.append((len(failures) - 1, size, i, j))
         if len(samples) < 4:
             samples.append({'version': version, 'scale': scale, 'border': border, 'row8': grid[(8 + b) * s][:40]})
+    # ---- per-type colouring: PNG and PPM with k distinct colours (k = 2..12, with / without a transparent one)
+    import io as _io, struct as _struct, zlib as _zlib
+    OPT_OF_TYPE = {1536: 'finder_dark', 6: 'finder_light', 1024: 'data_dark', 4: 'data_light', 4096: 'version_dark', 16: 'version_light',
+                   3584: 'format_dark', 14: 'format_light', 2560: 'alignment_dark', 10: 'alignment_light', 3072: 'timing_dark', 12: 'timing_light',
+                   8: 'separator', 512: 'dark_module', 18: 'quiet_zone'}
+    DARK_TYPES = {1536, 1024, 4096, 3584, 2560, 3072, 512}
+    palette = [(16, 201, 5), (29, 190, 42), (42, 179, 79), (200, 10, 10), (10, 10, 200), (250, 250, 0), (0, 250, 250), (250, 0, 250),
+               (120, 60, 0), (60, 120, 0), (0, 60, 120), (90, 90, 90), (33, 44, 55)]
+    opts_all = ['finder_dark', 'data_dark', 'version_dark', 'format_dark', 'alignment_dark', 'timing_dark', 'dark_module',
+                'finder_light', 'data_light', 'version_light', 'format_light', 'alignment_light', 'timing_light', 'separator', 'quiet_zone']
+    for version in ((7, 1, -1) if not ctx.thorough else (7, 1, -1, 0, 2, 10)):
+        code = impl.random_symbol(rng, version)
+        if code is None:
+            continue
+        q = impl.segno.QRCode(code)
+        size = len(code.matrix)
+        rows = '/'.join(''.join('1' if b else '0' for b in r) for r in code.matrix)
+        for k in range(0, 12):
+            for light in ('#fff', None):
+                kw = {o: palette[i] for i, o in enumerate(rng.sample(opts_all, k))}
+                border = rng.choice([0, 1, 2])
+                scale = rng.choice([1, 2])
+                exp_types = [[int(x) for x in r.split(',')] for r in common.oracle(['classify %d %d %s' % (size, border, rows)])[0].split('/')]
+
+                def want(y, x):
+                    t = exp_types[y // scale][x // scale]
+                    o = OPT_OF_TYPE[t]
+                    if o in kw:
+                        return kw[o] + (255,)
+                    if t in DARK_TYPES:
+                        return (0, 0, 0, 255)
+                    return (255, 255, 255, 255) if light is not None else (0, 0, 0, 0)
+                for kind in ('png', 'ppm'):
+                    if kind == 'ppm' and light is None:
+                        continue
+                    out = _io.BytesIO()
+                    r = impl.call(lambda: q.save(out, kind=kind, scale=scale, border=border, light=light, **kw))
+                    evaluations += 1
+                    distinct.add((version, kind, k, light))
+                    if r[0] != 'ok':
+                        failures.append({'input': {'version': version, 'kind': kind, 'options': {a: list(b) for a, b in kw.items()}, 'light': light},
+                                         'observed': '%s: %s' % (r[1], r[2]), 'expected': 'an image'})
+                        continue
+                    data = out.getvalue()
+                    if kind == 'png':
+                        pos, comp = 8, b''
+                        while pos < len(data):
+                            ln = _struct.unpack('>I', data[pos:pos + 4])[0]
+                            if data[pos + 4:pos + 8] == b'IDAT':
+                                comp += data[pos + 8:pos + 8 + ln]
+                            pos += 12 + ln
+                        ans = common.oracle(['r_png %s %s %s' % (data.hex(), comp.hex(), _zlib.decompress(comp).hex())])[0]
+                    else:
+                        ans = common.oracle(['r_ppm ' + data.hex()])[0]
+                    if not ans.startswith('OK'):
+                        failures.append({'input': {'version': version, 'kind': kind, 'options': {a: list(b) for a, b in kw.items()}, 'light': light,
+                                                   'scale': scale, 'border': border}, 'observed': 'independent reader rejects the file', 'expected': 'well-formed image'})
+                        continue
+                    px = [r2.split(',') for r2 in ans.split(' ')[-1].split('/')]
+                    bad = None
+                    for y, r2 in enumerate(px):
+                        for x, c in enumerate(r2):
+                            got = tuple(int(v) for v in c.split('.'))
+                            exp = want(y, x)
+                            if kind == 'ppm':
+                                exp = exp[:3]
+                            if got != exp and not (len(exp) == 4 and exp[3] == 0 and got[3] == 0):
+                                i2, j2 = y // scale - border, x // scale - border
+                                if size >= 21 and i2 == 8 and j2 == size - 9:
+                                    continue          # known finding kf_fmt_col: reported as format information
+                                bad = (y, x, got, exp)
+                                break
+                        if bad:
+                            break
+                    if bad:
+                        failures.append({'input': {'version': version, 'kind': kind, 'options': {a: list(b) for a, b in kw.items()}, 'light': light,
+                                                   'scale': scale, 'border': border, 'pixel': bad[:2]},
+                                         'observed': 'colour %s' % (bad[2],), 'expected': 'colour %s configured for the module type' % (bad[3],)})
     # known-finding predicate (extracted Gallina) decides which deviations are the listed one
     if kf_queries:
         ans = common.oracle_parallel(['kf_fmt_col %d %d %d' % (s, i, j) for _, s, i, j in kf_queries])
